@@ -75,9 +75,9 @@ static ssize_t take_event(qb_ipcc_connection_t *c, unsigned char *rbuf, size_t m
 		/* "readable while an event is queued": with deferred wake-up bytes (full notification socket) there is a moment between
 		 * the client taking the last byte and the server's next turn in which nothing is pending on the descriptor.  What a
 		 * polling client needs is that the wake-up is not LOST: the descriptor becomes readable without any further help.
-		 * 5 s is a watchdog for "never", not a latency requirement */
+		 * 2 s stands for "never" here (the server is up and has nothing else to do), it is not a latency requirement */
 		struct pollfd pf = { fd, POLLIN, 0 }; int pr = poll(&pf, 1, 0); int rd = pr > 0 && (pf.revents & POLLIN), waited = 0;
-		if (!rd && es->known_pending > 0) { waited = 1; pf.revents = 0; pr = poll(&pf, 1, 5000); rd = pr > 0 && (pf.revents & POLLIN); }
+		if (!rd && es->known_pending > 0) { waited = 1; pf.revents = 0; pr = poll(&pf, 1, 2000); rd = pr > 0 && (pf.revents & POLLIN); }
 		bed_log(L_C_POLL, 0, es->known_pending, rd, waited, 0, NULL);
 	}
 	ssize_t rc = qb_ipcc_event_recv(c, rbuf, maxsz, tmo);
@@ -161,7 +161,7 @@ static void client_c02(const struct cl_cfg *cc, const char *dir)
 			for (int part = 0; part < 2 && !dead; part++) {
 				memset(q, 0, sizeof *q); n++; len = TP_REQ_MIN;
 				if (part == 0) { q->op = OP_EVENTS; q->arg1 = 300 + vp_u(&r, 150); q->arg2 = (uint32_t)TP_RES_MIN; }
-				else { q->op = OP_RATE; q->arg1 = vp_chance(&r, 1, 2) ? QB_IPCS_RATE_OFF : QB_IPCS_RATE_OFF_2; }
+				else { q->op = OP_RATE; q->arg1 = vp_chance(&r, 1, 2) ? QB_IPCS_RATE_OFF : QB_IPCS_RATE_OFF_2; q->arg2 = vp_chance(&r, 1, 2) ? 3500 : 0; /* the server keeps flow control on for 3.5 s: longer than a probe is willing to wait for a wake-up */ }
 				q->hdr.id = QB_IPC_MSG_USER_START + 1 + (int32_t)(n % 50); q->hdr.size = (int32_t)len; q->seq = mkseq(cc->idx, n); q->plen = 0; q->cksum = tp_cksum(q->payload, 0);
 				ssize_t brc; int bt = 0;
 				for (;;) { brc = qb_ipcc_send(c, q, len); bed_log(L_C_SEND, 0, q->seq, (int64_t)len, brc, q->op, "backlog-under-fc"); if ((brc == -EAGAIN || brc == -ENOBUFS || brc == -ETIMEDOUT) && ++bt < 4000 && ++retry_budget <= 150000) { usleep(300); continue; } break; }
@@ -337,7 +337,7 @@ static void case_c02(long kase)
 			if (neag || refused) nontrivial = 1;
 		}
 		/* pollability: known-pending events => fd readable */
-		for (long k = 0; k < nc; k++) if (C[k].kind == L_C_POLL) { n_poll_probes++; if (C[k].a > 0 && C[k].c) n_deferred_wakeups++; if (C[k].a > 0 && C[k].b == 0) { snprintf(key, sizeof key, "ipc:fd-not-readable-with-event-queued:%s", sc.type == QB_IPC_SHM ? "shm" : "socket"); vp_violation(key, "client %d: %lld events known to be queued and unread, poll() says not readable, also after waiting 5 s (lost wake-up) [%s]", i + 1, (long long)C[k].a, vp.cur_desc); break; } }
+		for (long k = 0; k < nc; k++) if (C[k].kind == L_C_POLL) { n_poll_probes++; if (C[k].a > 0 && C[k].c) n_deferred_wakeups++; if (C[k].a > 0 && C[k].b == 0) { snprintf(key, sizeof key, "ipc:fd-not-readable-with-event-queued:%s", sc.type == QB_IPC_SHM ? "shm" : "socket"); vp_violation(key, "client %d: %lld events known to be queued and unread, poll() says not readable, also after waiting 2 s (lost wake-up) [%s]", i + 1, (long long)C[k].a, vp.cur_desc); break; } }
 		h = vp_hash_u64(h, (uint64_t)refused * 3 + (uint64_t)wrapped);
 		free(C);
 	}
